@@ -71,8 +71,6 @@ def run_path_c02(menu, path, is_leaf, inv_props=()):
     cfg = explore.Cfg(props=inv_props, depth=0)
     for i, ev in enumerate(path):
         last = i == len(path) - 1
-        h = tracks.action_history
-        u0, r0 = len(h.undo_stack), len(h.redo_stack)
         pre_snap = canon.snapshot(tracks) if last and ev in (UNDO, REDO) else None
         out = apply_event(tracks, w, ev)
         if ev == UNDO or ev == REDO:
@@ -104,11 +102,9 @@ def run_path_c02(menu, path, is_leaf, inv_props=()):
                 tl.edit(canon.observe(tracks))
                 if last:
                     tagl = "edit:ok"
-                    if len(h.undo_stack) != u0 + r0 + 1 or len(h.redo_stack) != 0:
-                        vio.append(_vio("C02", "steps-per-action",
-                                        f"stacks went from undo={u0},redo={r0} to undo={len(h.undo_stack)},redo={len(h.redo_stack)} on one top-level action",
-                                        menu, path, tag=events.branch_tag(out.action)))
-                        # (the observable state still follows the model: the sequence is extended)
+                    # "one top-level action = one step" is judged observably: the sequences that
+                    # continue with undo / undo / ... must follow the timeline (wrong-return,
+                    # state-differs-from-timeline); the internal stack lengths are not consulted
                     if len(out.refresh) != 1:
                         vio.append(_vio("C20", "refresh-count", f"{len(out.refresh)} emission(s) from one accepted action", menu, path))
             elif out.status == "raised":
